@@ -655,3 +655,46 @@ def _starts_with(m, st, callee, args, t):
     if h is None:
         return None
     return h(m, st, deref_all(m, st, args[0]), args[1])
+
+
+# ------------------------------------------------------------------------------- small collections (opaque)
+@model("alloc::vec::Vec::<T>::new", "alloc::vec::Vec::<T>::with_capacity")
+def _vec_new(m, st, callee, args, t):
+    return Opq("vec", ())
+
+
+@model("alloc::vec::Vec::<T, A>::push")
+def _vec_push(m, st, callee, args, t):
+    h = getattr(m.world, "vec_push", None)
+    if h is not None:
+        return h(m, st, args[0], args[1])
+    return UNIT
+
+
+@model("core::slice::<impl [T]>::contains", "alloc::vec::Vec::<T, A>::contains")
+def _slice_contains(m, st, callee, args, t):
+    h = getattr(m.world, "collection_contains", None)
+    if h is not None:
+        return h(m, st, args[0], args[1])
+    return None
+
+
+@model("<alloc::vec::Vec<T, A> as core::ops::deref::Deref>::deref", "<alloc::vec::Vec<T, A> as core::ops::deref::DerefMut>::deref_mut")
+def _vec_deref(m, st, callee, args, t):
+    v = deref_all(m, st, args[0])
+    if isinstance(v, Opq) and v.kind == "vec":
+        return v
+    return None
+
+
+@model("alloc::string::String::with_capacity")
+def _string_with_capacity(m, st, callee, args, t):
+    return m.world.new_buf(st, Str(("lit", "")))
+
+
+@model("alloc::string::String::push_str")
+def _push_str(m, st, callee, args, t):
+    h = getattr(m.world, "buf_push_str", None)
+    if h is None:
+        return None
+    return h(m, st, args[0], _content(m, st, args[1]))
